@@ -25,10 +25,68 @@ fn bit01(b: bool) -> &'static str {
     }
 }
 
+fn b(x: bool) -> char {
+    if x {
+        '1'
+    } else {
+        '0'
+    }
+}
+
+/// consistency flags of one input (see Run/Exec_C01.v `in_flags`); `plain` = no annotations expected
+fn in_flags(i: &TxIn) -> String {
+    let opts = [None, Some(false), Some(true)];
+    let none_false = i.get_prev_tx_id(Some(false)) == i.get_prev_tx_id(None) && i.get_outpoint_bytes(Some(false)) == i.get_outpoint_bytes(None);
+    let mut hexes = i.get_unlocking_script_hex() == hex::encode(i.get_unlocking_script().to_bytes());
+    for o in opts {
+        hexes &= i.get_prev_tx_id_hex(o) == hex::encode(i.get_prev_tx_id(o));
+        hexes &= i.get_outpoint_hex(o) == hex::encode(i.get_outpoint_bytes(o));
+    }
+    hexes &= match (i.to_hex(), i.to_bytes()) {
+        (Ok(h), Ok(by)) => h == hex::encode(by),
+        _ => false,
+    };
+    let mut r = i.get_prev_tx_id(None);
+    r.reverse();
+    let reversed = i.get_prev_tx_id(Some(true)) == r;
+    let no_ext = i.get_satoshis().is_none() && i.get_locking_script().is_none() && i.get_locking_script_bytes().is_none();
+    let fin = match i.get_finalised_script() {
+        Ok(s) => s == i.get_unlocking_script(),
+        Err(_) => false,
+    };
+    let cl = i.clone() == *i;
+    [b(none_false), b(hexes), b(reversed), b(no_ext), b(fin), b(cl)].iter().collect()
+}
+
+fn in_extra(i: &TxIn) -> String {
+    format!(
+        "{},{},{},{},{}",
+        hex::encode(i.get_sequence_as_bytes()),
+        i.get_unlocking_script_size(),
+        hex::encode(i.get_outpoint_bytes(None)),
+        hex::encode(i.get_outpoint_bytes(Some(true))),
+        in_flags(i)
+    )
+}
+
+fn out_flags(o: &TxOut) -> String {
+    let h = o.get_script_pub_key_hex() == hex::encode(o.get_script_pub_key().to_bytes());
+    let th = match (o.to_hex(), o.to_bytes()) {
+        (Ok(h), Ok(by)) => h == hex::encode(by),
+        _ => false,
+    };
+    let cl = o.clone() == *o;
+    [b(h), b(th), b(cl)].iter().collect()
+}
+
+fn out_extra(o: &TxOut) -> String {
+    format!("{},{},{}", hex::encode(o.get_satoshis_as_bytes()), o.get_script_pub_key_size(), out_flags(o))
+}
+
 fn show_txin(i: &TxIn) -> Option<String> {
     let b = i.to_bytes().ok()?;
     Some(format!(
-        "{};{};{};{};{};{};{};{}",
+        "{};{};{};{};{};{};{};{};{};{};{}",
         show_bytes(&b),
         i.get_prev_tx_id_hex(None),
         i.get_vout(),
@@ -37,13 +95,25 @@ fn show_txin(i: &TxIn) -> Option<String> {
         bit01(i.is_coinbase()),
         hex::encode(i.get_outpoint_bytes(Some(true))),
         hex::encode(i.get_outpoint_bytes(None)),
+        hex::encode(i.get_sequence_as_bytes()),
+        i.get_unlocking_script_size(),
+        in_flags(i),
     ))
 }
 
 fn tx_parse(bs: &[u8]) -> String {
+    let via_hex = Transaction::from_hex(&hex::encode(bs));
+    let via_hex_upper = Transaction::from_hex(&hex::encode_upper(bs));
     let mut tx = match Transaction::from_bytes(bs) {
         Ok(t) => t,
-        Err(_) => return "ERR".into(),
+        Err(_) => {
+            // the other entry points must reject it too
+            return if via_hex.is_err() && via_hex_upper.is_err() { "ERR".into() } else { "ERR-BUT-FROM-HEX-OK".into() };
+        }
+    };
+    let same_entry = match (&via_hex, &via_hex_upper) {
+        (Ok(a), Ok(c)) => *a == tx && *c == tx,
+        _ => false,
     };
     let ser = match tx.to_bytes() {
         Ok(b) => b,
@@ -66,12 +136,13 @@ fn tx_parse(bs: &[u8]) -> String {
             None => return "ERR-INPUT".into(),
         };
         ins.push_str(&format!(
-            "{},{},{},{},{}/",
+            "{},{},{},{},{},{}/",
             i.get_prev_tx_id_hex(None),
             i.get_vout(),
             show_bytes(&i.get_unlocking_script().to_bytes()),
             i.get_sequence(),
-            bit01(i.is_coinbase())
+            bit01(i.is_coinbase()),
+            in_extra(&i)
         ));
     }
     let mut outs = String::new();
@@ -80,7 +151,7 @@ fn tx_parse(bs: &[u8]) -> String {
             Some(o) => o,
             None => return "ERR-OUTPUT".into(),
         };
-        outs.push_str(&format!("{},{}/", o.get_satoshis(), show_bytes(&o.get_script_pub_key().to_bytes())));
+        outs.push_str(&format!("{},{},{}/", o.get_satoshis(), show_bytes(&o.get_script_pub_key().to_bytes()), out_extra(&o)));
     }
     let mut ops = String::new();
     for o in tx.get_outpoints() {
@@ -93,8 +164,21 @@ fn tx_parse(bs: &[u8]) -> String {
         Ok(v) => v.to_string(),
         Err(_) => "PANIC".into(),
     };
+    let f_hex = match tx.to_hex() {
+        Ok(h) => h == hex::encode(&ser),
+        Err(_) => false,
+    };
+    let f_idb = match tx.get_id_bytes() {
+        Ok(v) => hex::encode(v) == id,
+        Err(_) => false,
+    };
+    let cl = tx.clone();
+    let f_clone = cl == tx && cl.to_bytes().ok() == Some(ser.clone());
+    let f_range = tx.get_input(nin).is_none() && tx.get_output(nout).is_none();
+    let f_satin = tx.satoshis_in().is_none();
+    let flags: String = [b(f_hex), b(same_entry), b(f_idb), b(f_clone), b(f_range), b(f_satin)].iter().collect();
     format!(
-        "OK:{};{};{};{};{};{};{};{};{};{};{};{}",
+        "OK:{};{};{};{};{};{};{};{};{};{};{};{};{};{}",
         show_bytes(&ser),
         id,
         size,
@@ -106,7 +190,9 @@ fn tx_parse(bs: &[u8]) -> String {
         show_long(outs),
         show_long(ops),
         sat,
-        bit01(tx.is_coinbase())
+        bit01(tx.is_coinbase()),
+        hex::encode(tx.get_n_locktime_as_bytes()),
+        flags
     )
 }
 
@@ -241,15 +327,160 @@ fn tx_build_ext(args: &[String]) -> Option<String> {
         Err(_) => return Some("ERR-SIZE".into()),
     };
     let mut ins = String::new();
+    let mut fin = String::new();
     for k in 0..tx.get_ninputs() {
         let i = tx.get_input(k)?;
         let ib = match i.to_bytes() {
             Ok(b) => b,
             Err(_) => return Some("ERR-SER".into()),
         };
-        ins.push_str(&format!("{},{}/", show_bytes(&ib), i.get_unlocking_script_size()));
+        let sat = match i.get_satoshis() {
+            Some(v) => v.to_string(),
+            None => "-".into(),
+        };
+        let lock = match (i.get_locking_script(), i.get_locking_script_bytes()) {
+            (Some(l), Some(lb)) if l.to_bytes() == lb => format!("s{}", show_bytes(&lb)),
+            (None, None) => "-".into(),
+            _ => "INCONSISTENT".into(),
+        };
+        ins.push_str(&format!("{},{},{},{}/", show_bytes(&ib), i.get_unlocking_script_size(), sat, lock));
+        match i.get_finalised_script() {
+            Ok(s) => fin.push_str(&format!("{}/", show_bytes(&s.to_bytes()))),
+            Err(_) => fin.push_str("E/"),
+        }
     }
-    Some(format!("OK:{};{};{};{}", show_bytes(&b), id, size, show_long(ins)))
+    Some(format!("OK:{};{};{};{};{}", show_bytes(&b), id, size, show_long(ins), show_long(fin)))
+}
+
+/// tx.build_alt variant ver lt nin nout (id vout script seq|-)* (value script)*  (see Run/Exec_C01.v)
+fn tx_build_alt(args: &[String]) -> Option<String> {
+    let variant = args.get(0)?.as_str();
+    let args = &args[1..];
+    let ver = u32::try_from(arg_u64(args, 0)?).ok()?;
+    let lt = u32::try_from(arg_u64(args, 1)?).ok()?;
+    let nin = arg_u64(args, 2)? as usize;
+    let nout = arg_u64(args, 3)? as usize;
+    if nin > 1000 || nout > 1000 || args.len() != 4 + 4 * nin + 2 * nout {
+        return None;
+    }
+    let mut p = 4;
+    let mut parts: Vec<(Vec<u8>, u32, Script, Option<u32>)> = vec![];
+    for _ in 0..nin {
+        let id = arg_bytes(args, p)?;
+        let vout = u32::try_from(arg_u64(args, p + 1)?).ok()?;
+        let sb = arg_bytes(args, p + 2)?;
+        let seq = if args[p + 3] == "-" { None } else { Some(u32::try_from(arg_u64(args, p + 3)?).ok()?) };
+        p += 4;
+        let script = if null_outpoint(&id, vout) { Script::from_coinbase_bytes(&sb) } else { Script::from_bytes(&sb) };
+        match script {
+            Ok(s) => parts.push((id, vout, s, seq)),
+            Err(_) => return Some("ERR".into()),
+        }
+    }
+    let mut touts: Vec<TxOut> = vec![];
+    for _ in 0..nout {
+        let v = arg_u64(args, p)?;
+        let sb = arg_bytes(args, p + 1)?;
+        p += 2;
+        match Script::from_bytes(&sb) {
+            Ok(s) => touts.push(TxOut::new(v, &s)),
+            Err(_) => return Some("ERR".into()),
+        }
+    }
+    let tins: Vec<TxIn> = parts.iter().map(|(id, vo, s, sq)| TxIn::new(id, *vo, s, *sq)).collect();
+    let tx: Transaction = match variant {
+        "bulk" => {
+            let mut tx = Transaction::new(ver, lt);
+            tx.add_inputs(tins.clone());
+            tx.add_outputs(touts.clone());
+            tx
+        }
+        "default" => {
+            let mut t0 = Transaction::default();
+            let mut t1 = t0.set_version(ver);
+            let mut tx = t1.set_nlocktime(lt);
+            for (id, vo, s, sq) in &parts {
+                let mut i = TxIn::default();
+                i.set_prev_tx_id(id);
+                i.set_vout(*vo);
+                i.set_unlocking_script(s);
+                if let Some(v) = sq {
+                    i.set_sequence(*v);
+                }
+                tx.add_input(&i);
+            }
+            for o in &touts {
+                tx.add_output(o);
+            }
+            tx
+        }
+        "prepend" => {
+            let mut tx = Transaction::new(ver, lt);
+            for i in tins.iter().rev() {
+                tx.prepend_input(i);
+            }
+            for o in touts.iter().rev() {
+                tx.prepend_output(o);
+            }
+            tx
+        }
+        "insert" => {
+            let mut tx = Transaction::new(ver, lt);
+            for (k, i) in tins.iter().enumerate() {
+                if !(tins.len() >= 2 && k == 1) {
+                    tx.add_input(i);
+                }
+            }
+            if tins.len() >= 2 {
+                tx.insert_input(1, &tins[1]);
+            }
+            for (k, o) in touts.iter().enumerate() {
+                if !(touts.len() >= 2 && k == 1) {
+                    tx.add_output(o);
+                }
+            }
+            if touts.len() >= 2 {
+                tx.insert_output(1, &touts[1]);
+            }
+            tx
+        }
+        "set" => {
+            let mut tx = Transaction::new(ver, lt);
+            for _ in &tins {
+                tx.add_input(&TxIn::default());
+            }
+            for _ in &touts {
+                tx.add_output(&TxOut::new(0, &Script::default()));
+            }
+            for (k, i) in tins.iter().enumerate() {
+                tx.set_input(k, i);
+            }
+            for (k, o) in touts.iter().enumerate() {
+                tx.set_output(k, o);
+            }
+            tx
+        }
+        "clone" => {
+            let mut tx = Transaction::new(ver, lt);
+            for i in &tins {
+                tx.add_input(i);
+            }
+            for o in &touts {
+                tx.add_output(o);
+            }
+            tx.clone()
+        }
+        _ => return None,
+    };
+    let by = match tx.to_bytes() {
+        Ok(v) => v,
+        Err(_) => return Some("ERR-SER".into()),
+    };
+    let size = match tx.get_size() {
+        Ok(n) => n,
+        Err(_) => return Some("ERR-SIZE".into()),
+    };
+    Some(format!("OK:{};{}", show_bytes(&by), size))
 }
 
 fn rd(r: std::io::Result<u64>) -> Option<u64> {
@@ -264,6 +495,10 @@ pub fn run(op: &str, args: &[String]) -> Option<String> {
             None => return bad(),
         },
         "tx.build" => match tx_build(args) {
+            Some(r) => r,
+            None => return bad(),
+        },
+        "tx.build_alt" => match tx_build_alt(args) {
             Some(r) => r,
             None => return bad(),
         },
@@ -291,7 +526,15 @@ pub fn run(op: &str, args: &[String]) -> Option<String> {
             };
             match TxOut::from_hex(&hex::encode(&bs)) {
                 Ok(o) => match o.to_bytes() {
-                    Ok(b) => format!("OK:{};{};{}", show_bytes(&b), o.get_satoshis(), show_bytes(&o.get_script_pub_key().to_bytes())),
+                    Ok(b) => format!(
+                        "OK:{};{};{};{};{};{}",
+                        show_bytes(&b),
+                        o.get_satoshis(),
+                        show_bytes(&o.get_script_pub_key().to_bytes()),
+                        hex::encode(o.get_satoshis_as_bytes()),
+                        o.get_script_pub_key_size(),
+                        out_flags(&o)
+                    ),
                     Err(_) => "ERR-SER".into(),
                 },
                 Err(_) => "ERR".into(),
